@@ -6,6 +6,8 @@ void prop_c03(hz::Ctx &);
 void prop_c04(hz::Ctx &);
 void prop_c05(hz::Ctx &);
 int replay_line(const std::string &prop, const std::string &caseid);
+namespace ln { struct LineCase; }
+void run_fitted_line(hz::Ctx &ctx, const ln::LineCase &c, bool nested);   // re-encoding behind chunk-fitting padding (C01-C05, C11)
 void prop_c10(hz::Ctx &);
 int replay_reject(const std::string &caseid);
 void prop_c11(hz::Ctx &);
